@@ -29,3 +29,25 @@ Theorem C12_freed_blocks_are_zero : forall NB, 0 < NB -> forall lvl root bn d fr
   (forall off', off' < pw NB lvl -> leaf NB d' lvl root' off' = if Nat.ltb off' bn then leaf NB d lvl root off' else 0).
 Proof. exact shrink_ownership. Qed.
 Print Assumptions C12_freed_blocks_are_zero.
+
+(* ---- the reference (AM): what READ must return never contains old data ---- *)
+From stdpp Require Import gmap.
+From Coq Require Import NArith.
+From V Require Import Model.Lib Model.Afs Proofs.AfsData.
+
+(* in every reachable state of the reference, every position at or beyond the size of an object is zero:
+   growing a file (SETATTR, a WRITE beyond the end) can only expose zeros *)
+Theorem C12_reference_beyond_size_is_zero : forall P u cs i o k,
+  objs (run P (init_afs u) cs) !! i = Some o -> (o_size o <= k)%N -> byte_at (o_data o) k = x00.
+Proof. exact beyond_size_is_zero. Qed.
+Print Assumptions C12_reference_beyond_size_is_zero.
+
+(* a truncation zeroes everything from the new size on at once (nothing cut off can come back) *)
+Theorem C12_reference_truncate_zeroes : forall m sz, wfm m ->
+  wfm (trunc_data m sz) /\ forall i, byte_at (trunc_data m sz) i = if (i <? sz)%N then byte_at m i else x00.
+Proof. exact trunc_data_spec. Qed.
+Print Assumptions C12_reference_truncate_zeroes.
+
+(* a position nobody ever wrote holds zero *)
+Theorem C12_reference_unwritten_is_zero : forall i, byte_at ∅ i = x00.
+Proof. exact byte_at_empty. Qed.
